@@ -4,6 +4,7 @@ import (
 	"fmt"
 	"reflect"
 	"sort"
+	"unsafe"
 )
 
 // SortedKeys returns the keys of a map in a deterministic order: the rewrite of
@@ -22,8 +23,78 @@ func SortedKeys[M ~map[K]V, K comparable, V any](m M) []K {
 		sort.Slice(keys, func(i, j int) bool { return reflect.ValueOf(keys[i]).Int() < reflect.ValueOf(keys[j]).Int() })
 	case reflect.String:
 		sort.Slice(keys, func(i, j int) bool { return reflect.ValueOf(keys[i]).String() < reflect.ValueOf(keys[j]).String() })
+	case reflect.Chan, reflect.Ptr, reflect.UnsafePointer:
+		// identity keys: addresses differ from execution to execution, creation numbers do not (the
+		// rewriter wraps every &T{...}, new(T) and make(chan ...) of the code under test in Note)
+		rank := map[unsafe.Pointer]int{}
+		for i, p := range notedList() {
+			if _, ok := rank[p]; !ok {
+				rank[p] = i + 1
+			}
+		}
+		at := func(k K) (int, uintptr) {
+			p := *(*unsafe.Pointer)(unsafe.Pointer(&k))
+			if r, ok := rank[p]; ok {
+				return r, 0
+			}
+			return 1 << 62, uintptr(p) // not created by rewritten code: after the others, by address
+		}
+		sort.Slice(keys, func(i, j int) bool {
+			ri, ai := at(keys[i])
+			rj, aj := at(keys[j])
+			if ri != rj {
+				return ri < rj
+			}
+			return ai < aj
+		})
 	default:
 		sort.Slice(keys, func(i, j int) bool { return fmt.Sprint(keys[i]) < fmt.Sprint(keys[j]) })
 	}
 	return keys
+}
+
+// noted: the objects created by rewritten code during the current execution, in creation order.
+var notedSetup []unsafe.Pointer
+
+//go:norace
+func notedList() []unsafe.Pointer {
+	if cur != nil {
+		return cur.noted
+	}
+	return notedSetup
+}
+
+// NoteObj is wrapped around every &T{...}, new(T) and make(chan ...) of the code under test: it gives the
+// new object a creation number, which is the same in every execution of one schedule (its address is
+// not). P is always pointer-shaped.
+//
+//go:norace
+func NoteObj[P any](p P) P {
+	if cur != nil || inSetup {
+		ptr := *(*unsafe.Pointer)(unsafe.Pointer(&p))
+		if cur != nil {
+			cur.noted = pushPtr(cur.noted, ptr)
+		} else {
+			notedSetup = pushPtr(notedSetup, ptr)
+		}
+	}
+	return p
+}
+
+
+// pushPtr is append without runtime.growslice (which carries its own race instrumentation and would
+// report the bookkeeping of the scheduler as a race of the code under test).
+//
+//go:norace
+func pushPtr(x []unsafe.Pointer, p unsafe.Pointer) []unsafe.Pointer {
+	if len(x) == cap(x) {
+		n := make([]unsafe.Pointer, len(x), 2*cap(x)+64)
+		for i := range x {
+			n[i] = x[i]
+		}
+		x = n
+	}
+	x = x[:len(x)+1]
+	x[len(x)-1] = p
+	return x
 }
